@@ -60,6 +60,10 @@ func strAxioms(features map[string]bool, quant bool) []string {
 }
 
 func (u *Unit) smtHeader(ncmds int) string {
+	return u.smtHeaderWith(u.cmds[:ncmds])
+}
+
+func (u *Unit) smtHeaderWith(cmds []string) string {
 	var sb strings.Builder
 	sb.WriteString("(set-option :produce-models true)\n")
 	sb.WriteString("(set-logic ALL)\n")
@@ -70,7 +74,7 @@ func (u *Unit) smtHeader(ncmds int) string {
 	}
 	sb.WriteString(u.w.strLitDecls())
 	sb.WriteString("(define-fun nilbytes () Bytes (bytes true " + u.w.strLit("").S + "))\n")
-	for _, c := range u.cmds[:ncmds] {
+	for _, c := range cmds {
 		sb.WriteString(c)
 		sb.WriteByte('\n')
 	}
@@ -102,7 +106,11 @@ func (o *Obligation) smtFile(timeoutMs int) string {
 	}
 	u := o.unit
 	var sb strings.Builder
-	sb.WriteString(u.smtHeader(o.NCmds))
+	extra := o.Guard.S + " " + o.Goal.S
+	for _, a := range u.axiomFacts {
+		extra += " " + a
+	}
+	sb.WriteString(u.smtHeaderWith(u.prunedCmds(o.NCmds, o.NFacts, extra)))
 	for _, f := range u.facts[:o.NFacts] {
 		sb.WriteString("(assert " + f + ")\n")
 	}
